@@ -36,3 +36,57 @@ def inside(a, p):
 
 def ancestor(a, p):
     return a != p and inside(a, p)
+
+
+def goclean(p):
+    """filepath.Clean on Linux (independent re-implementation for the oracles;
+    self-checked against Go's own Clean in the C19 'clean' stream)."""
+    if p == b"":
+        return b"."
+    rooted = p.startswith(b"/")
+    out = []
+    for c in p.split(b"/"):
+        if c == b"" or c == b".":
+            continue
+        if c == b"..":
+            if out and out[-1] != b"..":
+                out.pop()
+            elif rooted:
+                continue
+            else:
+                out.append(c)
+        else:
+            out.append(c)
+    if rooted:
+        return b"/" + b"/".join(out)
+    return b"/".join(out) if out else b"."
+
+
+def gojoin(a, b):
+    if a == b"" and b == b"":
+        return b""
+    if a == b"":
+        return goclean(b)
+    return goclean(a + b"/" + b)
+
+
+def godir(p):
+    i = p.rfind(b"/")
+    return goclean(p[:i + 1])
+
+
+def ccomps(p):
+    """components of a cleaned path, '.' -> []"""
+    if p == b".":
+        return []
+    return comps(p)
+
+
+def within(pfx, p):
+    """semantic containment of cleaned paths: p is pfx or below it and does not climb out"""
+    if pfx.startswith(b"/") != p.startswith(b"/"):
+        return False
+    a, b = ccomps(pfx), ccomps(p)
+    if b[:len(a)] != a:
+        return False
+    return b".." not in b[len(a):]
